@@ -249,6 +249,33 @@ class Target:
     r.update(extra)
     return r
 
+  # -- how values are chosen (overridden by targets with their own value classes) --
+  annotated = False
+
+  def make_call(self, rng, style=None):
+    return S.make_call(rng, self.sig, style)
+
+  def late_bindings(self, rng, n, how):
+    """[(name, value, how)] binding `n` later to a value that differs from the
+    current one (a value equal to the current one is "no change": left open)."""
+    sig = self.sig
+    dflt = self.defaults.get(n)
+    r = rng.random()
+    if n in self.defaults and r < 0.25:
+      # away and back: the argument ends up explicitly bound to a value equal
+      # to its default (both rebinds change the stored value).
+      return [(n, rng.randint(11, 19), how), (n, dflt, rng.choice(['rebind', 'setattr']))]
+    if (n in self.defaults and r < 0.4 and not sig['typed'] and type(dflt) is int
+        and not any(p[0] == n and p[3] for p in sig['pos'] + sig['kwonly'])):
+      # equal to the default but of another type (10.0 for 10): a change of
+      # the stored value that `==` does not see.
+      return [(n, float(dflt), how)]
+    return [(n, ('fresh', rng.randint(11, 19))[sig['typed']] if rng.random() < 0.3
+             else rng.randint(11, 19), how)]
+
+  def rebind_value(self, rng, n):
+    return rng.randint(11, 19)
+
   def param_kind(self, name):
     if name in self.pos:
       return 'positional'
@@ -404,7 +431,7 @@ def functor_call(ctx, t, j, rng):
   sig = t.sig
   pattern = rng.choice(['ctor-only', 'call-only', 'split', 'split', 'rebound', 'override',
                         'override', 'rebind', 'rebind'])
-  a, k = S.make_call(rng, sig)
+  a, k = t.make_call(rng)
   a1, k1, a2, k2 = [], {}, [], {}
   override_at = None
   rebinds = []
@@ -416,7 +443,7 @@ def functor_call(ctx, t, j, rng):
     (a1, k1), (a2, k2) = S.split_call(rng, a, k)
   elif pattern in ('rebound', 'override'):
     a1, k1 = a, k
-    a2, k2 = S.make_call(rng, sig, rng.choice(['valid', 'random']))
+    a2, k2 = t.make_call(rng, rng.choice(['valid', 'random']))
     if pattern == 'override':
       override_at = rng.choice(['ctor', 'call'])
   else:
@@ -425,21 +452,7 @@ def functor_call(ctx, t, j, rng):
     for n in rng.sample(cand, min(len(cand), rng.randint(1, 2))):
       # (a value equal to the current one is "no change" for rebind: left open)
       how = rng.choice(['rebind', 'setattr'])
-      dflt = t.defaults.get(n)
-      r = rng.random()
-      if n in t.defaults and r < 0.25:
-        # away and back: the argument ends up explicitly bound to a value equal
-        # to its default (both rebinds change the stored value).
-        rebinds.append((n, rng.randint(11, 19), how))
-        rebinds.append((n, dflt, rng.choice(['rebind', 'setattr'])))
-      elif (n in t.defaults and r < 0.4 and not sig['typed'] and type(dflt) is int
-            and not any(p[0] == n and p[3] for p in sig['pos'] + sig['kwonly'])):
-        # equal to the default but of another type (10.0 for 10): a change of
-        # the stored value that `==` does not see.
-        rebinds.append((n, float(dflt), how))
-      else:
-        rebinds.append((n, ('fresh', rng.randint(11, 19))[sig['typed']] if rng.random() < 0.3
-                        else rng.randint(11, 19), how))
+      rebinds += t.late_bindings(rng, n, how)
   # *args given at both times is left open by the documentation.
   if sig['varargs'] and len(a1) > len(t.pos) and len(a2) > len(t.pos):
     a2 = a2[:len(t.pos)]
@@ -550,7 +563,7 @@ def class_call(ctx, t, j, rng):
   pattern = rng.choice(['ctor-only', 'ctor-only', 'rebind', 'partial'])
   if pattern == 'partial':
     return class_partial(ctx, t, rng)
-  a, k = S.make_call(rng, sig)
+  a, k = t.make_call(rng)
   witness = t.witness(**{'class': t.csrc.split('\n')[1].strip(), 'entry': 'class-' + t.class_entry,
                          'pattern': pattern, 'construct': [a, k]})
   c['class_constructions_compared'] += 1
@@ -585,7 +598,8 @@ def class_call(ctx, t, j, rng):
   if pattern == 'rebind':
     cand = t.pos + t.kwo + (['zz'] if sig['varkw'] else [])
     if cand:
-      n, v = rng.choice(cand), rng.randint(11, 19)    # differs from the current value
+      n = rng.choice(cand)
+      v = t.rebind_value(rng, n)    # differs from the current value
       named, varargs, extra = state
       if n in t.pos + t.kwo:
         named = dict(named, **{n: v})
@@ -625,7 +639,7 @@ def class_call(ctx, t, j, rng):
 def class_partial(ctx, t, rng):
   """Arguments bound partially at construction, completed later by rebind."""
   c = ctx.counters
-  a, k = S.make_call(rng, t.sig, 'valid')
+  a, k = t.make_call(rng, 'valid')
   keys = list(k)
   rng.shuffle(keys)
   cut = rng.randint(0, len(keys))
